@@ -6,6 +6,7 @@ package gosym
 
 import (
 	"fmt"
+	"sort"
 	"go/token"
 	"go/types"
 	"os"
@@ -14,6 +15,8 @@ import (
 
 	"golang.org/x/tools/go/ssa"
 )
+
+var profileSteps = os.Getenv("GOSYM_PROFILE") != ""
 
 var debugPanics = os.Getenv("GOSYM_DEBUG_PANIC") != ""
 
@@ -60,6 +63,8 @@ type Interp struct {
 
 	violations     []*Violation
 	abortStack     string
+	onceCache      map[string]value
+	cellUndo       []undoRec
 	panicSeen      map[string]bool
 	violationsMark int
 }
@@ -140,6 +145,7 @@ type fnInfo struct {
 	name      string
 	seen      bool
 	isPkgInit, initAllowed bool
+	steps     int64
 }
 
 type frame struct {
@@ -845,6 +851,9 @@ func (fr *frame) runFrame() {
 			}
 		}
 		in.steps += int64(len(blk.instrs))
+		if profileSteps {
+			fr.info.steps += int64(len(blk.instrs))
+		}
 		if in.steps > in.maxSteps {
 			panic(pathEnd{kind: "budget", msg: fmt.Sprintf("step budget of %d SSA instructions exhausted in %s", in.maxSteps, fr.fn)})
 		}
@@ -954,4 +963,27 @@ func (fr *frame) stack() string {
 		fmt.Fprintf(&sb, "  %s (called at %s)\n", f.fn, posString(f.i.prog, f.callpos))
 	}
 	return sb.String()
+}
+
+// DumpProfile prints the functions with the most interpreted instructions.
+func (in *Interp) DumpProfile(n int) {
+	type e struct {
+		name  string
+		steps int64
+	}
+	var es []e
+	var total int64
+	for _, fi := range in.fninfo {
+		if fi.steps > 0 {
+			es = append(es, e{fi.name, fi.steps})
+			total += fi.steps
+		}
+	}
+	sort.Slice(es, func(i, j int) bool { return es[i].steps > es[j].steps })
+	for i, x := range es {
+		if i >= n {
+			break
+		}
+		fmt.Fprintf(os.Stderr, "%10d %5.1f%% %s\n", x.steps, 100*float64(x.steps)/float64(total), x.name)
+	}
 }
